@@ -465,6 +465,7 @@ Outcome exec_c19(const C19Case& c, bool keep_log, Stats* stats) {
   auto run_world = [&](int chunk, std::vector<OpResult>* results, std::vector<std::string>* opens) {
     clear_zone_cache();
     env_reset(); fs_reset();
+    clk.active = true;   // a fixed simulated date for the whole run (references included): replay does not depend on the day it is run
     back.clear();
     for (const FsSpec& f : c.fs) {
       FsNode& n = fs.nodes[f.path];
